@@ -1,7 +1,10 @@
 (* The cursor calculus of Proofs/WriterCursor.v with the writer's nesting counter: emitsD B E E' m c c' says that from
    a cursor near c and with _indent = E the action m succeeds, ends exactly at cursor c' with _indent = E', and that
-   every non-empty white-space run it emits ends at a significant token i and was passed the indent D i (goodD),
-   D being the expected indent of token i (instantiated with the reference depth in Proofs/AstWriterDepth.v). *)
+   every non-empty white-space run it emits ends at a significant token i and - if the run holds a newline token, i.e.
+   if token i can begin a line - was passed the indent D i (goodD), D being the expected indent of token i
+   (instantiated with the reference depth in Proofs/AstWriterDepth.v).  Runs without a newline token lie inside a line;
+   their indent is not constrained (inside a one-line `if (c) .. else ..` the writer's counter is one above the
+   reference depth). *)
 From PV Require Import Base.Prelude Spec.LuaTokens Spec.LuaGrammar Model.Tokens Model.WriterChunks Model.AstWriter
   Model.WriterDomain Proofs.ParserProofs Proofs.WriterCursor.
 From Coq Require Import ZifyBool.
@@ -19,7 +22,7 @@ Local Notation okpos := (okpos ts).
 
 Definition goodD (c : chunk) : Prop :=
   match c with
-  | Trivia s ind _ run => run = [] \/ (sigb (s + zlen run) = true /\ ind = D (s + zlen run))
+  | Trivia s ind _ run => run = [] \/ (sigb (s + zlen run) = true /\ (existsb is_newline run = true -> ind = D (s + zlen run)))
   | Code _ _ => True
   end.
 
@@ -99,7 +102,7 @@ Proof.
     [lia | intros k; apply skipn_nth_ts | rewrite zlen_skipn by (unfold zlen in Hlen; lia); lia |].
   fold run in A, Bd, Cd, Dd.
   destruct Hn as [H0 [Hpc|[Hps HpB]]].
-  - destruct N1 as [_ [N1|[N1 N2]]]; [lia|]. rewrite Hpc in *. split; [apply (first_sig_inv ts _ _ N1)|].
+  - destruct N1 as [_ [N1|[N1 N2]]]; [lia|]. rewrite Hpc in *. split; [apply (first_sig_inv ts _ _ N1)|]. intros _.
     rewrite He. apply HD; [exact N1|].
     destruct (Z_lt_ge_dec (c + zlen run) b) as [Hlt|Hge]; [exact Hlt|]. exfalso.
     destruct Hb as [Hb1 [Hb2|Hb2]]; [lia|]. rewrite (A (b - 1)) in Hb2 by lia. discriminate.
@@ -117,7 +120,7 @@ Proof.
   destruct (spaces_to_chunk b st) as (run & Hrun). rewrite Hrun in X1. injection X1 as <-. cbn [w_pos w_ind w_out] in *.
   eexists _, [_]. split; [exact Hrun|]. cbn [w_pos w_ind w_out]. split; [exact P1|]. split; [exact He|]. split; [reflexivity|].
   constructor; [|constructor]. cbn [goodD]. destruct run as [|t0 r0] eqn:Er; [left; reflexivity | right]. rewrite <- Er in *.
-  rewrite P1. split; [apply (first_sig_inv ts _ _ Hi) | rewrite He; exact HD].
+  rewrite P1. split; [apply (first_sig_inv ts _ _ Hi) | intros _; rewrite He; exact HD].
 Qed.
 
 Lemma emitsD_spaces_cur B E E' b k c c' i t :
